@@ -228,7 +228,10 @@ namespace Dune
   template<int k>
   inline std::uint_least32_t bigunsignedint<k>::touint () const
   {
-    return (digit[1]<<bits)+digit[0];
+    std::uint_least32_t result = digit[0];
+    if constexpr (n > 1)
+      result += static_cast<std::uint_least32_t>(digit[1])<<bits;
+    return result;
   }
 
   template<int k>
